@@ -184,6 +184,9 @@ def ensure_generated():
         import structure
         text = structure.generate(REPO, CFG)
         write_if_changed(os.path.join(LEAN, "JsonC", "Generated", "Structure.lean"), text)
+        # selected functions translated from clang's typed AST of the current source (tools/extract/c2lean.py)
+        import c2lean
+        write_if_changed(os.path.join(LEAN, "JsonC", "Generated", "Translated.lean"), c2lean.generate(REPO, CFG))
 
 
 # ----------------------------------------------------------------------------- lean
@@ -203,7 +206,7 @@ def driver_path(component):
 # compare the implementation with the model the theorems are ABOUT - the one built from the reference
 # facts - not with a model rebuilt from facts no theorem covers (that comparison produced bogus "failing
 # inputs" on behaviour-preserving rewrites that merely moved a statement out of an extractor's sight).
-GEN_FILES = ["Consts.lean", "Structure.lean"]
+GEN_FILES = ["Consts.lean", "Structure.lean", "Translated.lean"]
 
 
 def _gen_path(n):
@@ -335,8 +338,7 @@ def audit_sources(prop=None):
 ALLOWED_AXIOMS = {"propext", "Classical.choice", "Quot.sound"}
 
 
-def theorems_of(prop):
-    path = os.path.join(LEAN, "JsonC", "Props", prop + ".lean")
+def theorems_in(path):
     txt = strip_comments(open(path).read())
     ns = re.findall(r"^namespace\s+(\S+)", txt, re.M)
     names = re.findall(r"^(?:private\s+|protected\s+)?theorem\s+([^\s:({\[]+)", txt, re.M)
@@ -344,14 +346,25 @@ def theorems_of(prop):
     return [prefix + n for n in names]
 
 
-def audit_axioms(prop):
+def theorems_of(prop, tie=()):
+    """the property theorems of Props/<prop>.lean, plus the theorems of the property's tie modules
+    (Lemmas/Translated*.lean: hand-written model = definitions translated from the current C source)"""
+    out = theorems_in(os.path.join(LEAN, "JsonC", "Props", prop + ".lean"))
+    for m in tie:
+        out += theorems_in(os.path.join(LEAN, "JsonC", "Lemmas", m + ".lean"))
+    return out
+
+
+def audit_axioms(prop, tie=()):
     """#print axioms on every theorem of Props/<prop>.lean. Returns (results, problems)."""
-    thms = theorems_of(prop)
+    thms = theorems_of(prop, tie)
     if not thms:
         return {}, ["no theorems found in Props/%s.lean" % prop]
     tmp = os.path.join(BUILD, "audit_%s_%d.lean" % (prop, os.getpid()))
     with open(tmp, "w") as f:
         f.write("import JsonC.Props.%s\n" % prop)
+        for m in tie:
+            f.write("import JsonC.Lemmas.%s\n" % m)
         for t in thms:
             f.write("#print axioms %s\n" % t)
     # under the build lock: a concurrent check that is rebuilding a shared module (e.g. Generated.Structure after
